@@ -98,6 +98,36 @@ theorem idft3_local {C : Type} [Add C] [Mul C] [OfNat C 0] (d : Dims) (twx twy t
   exact BoxLocal.comp d _ _ (BoxLocal.comp d _ _ (alongZ_local d _ (idft1_local d.nz twz iz)) (alongY_local d _ (idft1_local d.ny twy iy)))
     (alongX_local d _ (idft1_local d.nx twx ix))
 
+theorem dft3_local {C : Type} [Add C] [Mul C] [OfNat C 0] (d : Dims) (twx twy twz : Nat → C) :
+    BoxLocal d (dft3 d twx twy twz) := by
+  unfold dft3
+  exact BoxLocal.comp d _ _ (BoxLocal.comp d _ _ (alongX_local d _ (dft1_local d.nx twx)) (alongY_local d _ (dft1_local d.ny twy)))
+    (alongZ_local d _ (dft1_local d.nz twz))
+
+/-- on the box the filter only sees the input on the box -/
+theorem filt_local {R C : Type} [SMul R C] [Add C] [Mul C] [OfNat C 0] (d : Dims) (twx twy twz : Nat → C) (ix iy iz : C)
+    (re : C → C) (g : Idx → R) : BoxLocal d (filt (dft3 d twx twy twz) (idft3 d twx twy twz ix iy iz) re g) := by
+  intro x x' hx i hi
+  unfold filt
+  congr 1
+  apply idft3_local d twx twy twz ix iy iz _ _ _ i hi
+  intro k hk
+  rw [dft3_local d twx twy twz x x' hx k hk]
+
+/-- the rolled array holds, on the box, the re-indexed input -/
+theorem rollGrid_get {C : Type} [OfNat C 0] (d : Dims) (s : Idx) (x : Grid C) (i : Idx) (hi : InBoxI d i) :
+    atIdx (rollGrid d s x).get i = atIdx x.get (rollIdx d s i) := by
+  obtain ⟨a, b, c⟩ := i
+  exact get_tabulate d _ a b c hi
+
+/-- the driver's `roll` variant of the `filter` op: the pipeline run on the rolled array is `filt` of the re-indexed input -/
+theorem filtGrid_roll {R C : Type} [SMul R C] [Add C] [Mul C] [OfNat C 0] (d : Dims) (twx twy twz : Nat → C) (ix iy iz : C)
+    (re : C → C) (gain : Idx → R) (s : Idx) (x : Grid C) (i : Idx) (hi : InBoxI d i) :
+    atIdx (filtGrid d twx twy twz ix iy iz re gain (rollGrid d s x)).get i
+      = filt (dft3 d twx twy twz) (idft3 d twx twy twz ix iy iz) re gain (fun i => atIdx x.get (rollIdx d s i)) i := by
+  rw [filtGrid_get d twx twy twz ix iy iz re gain _ i hi]
+  exact filt_local d twx twy twz ix iy iz re gain _ _ (fun k hk => rollGrid_get d s x k hk) i hi
+
 /-- on the box the filter only sees the gain on the box -/
 theorem filt_gain_congr {R C : Type} [SMul R C] [Add C] [Mul C] [OfNat C 0] (d : Dims) (twx twy twz : Nat → C) (ix iy iz : C)
     (re : C → C) (g g' : Idx → R) (hg : ∀ k, InBoxI d k → g k = g' k) (x : Idx → C) (i : Idx) (hi : InBoxI d i) :
